@@ -17,8 +17,4 @@ func (o *Oracle) noteMinted(v string, s *sessions.SessionState) {
 // noteCorrupted remembers how a corrupted value was derived.
 func (o *Oracle) noteCorrupted(nv, how string) { o.corrupted[nv] = how }
 
-func (o *Oracle) judgeSignatures(e *Exchange, pol *Policy) {}
-func (o *Oracle) judgePages(e *Exchange)                   {}
-func (o *Oracle) judgeAuth(e *Exchange)                    {}
 
-func (d *Driver) execExtra(st *Step, b *Browser) bool { return false }
